@@ -10,6 +10,7 @@ import (
 	"os"
 	"runtime"
 	"strconv"
+	"strings"
 	"sync"
 
 	secp256k1 "gitlab.com/yawning/secp256k1-voi"
@@ -35,6 +36,15 @@ type shared struct {
 	v     byte
 	dig   []byte
 	ssig  []byte
+	// inputs that programs share between goroutines as a matter of course: one options object (its Hash left unset, as its
+	// documentation invites), one domain separation tag, one compact signature
+	opts *secec.ECDSAOptions
+	dst  []byte
+	csig []byte
+}
+
+func optsImage(o *secec.ECDSAOptions) []byte {
+	return []byte(strconv.Itoa(int(o.Hash)) + "/" + strconv.Itoa(int(o.Encoding)) + "/" + strconv.FormatBool(o.SelfVerify) + "/" + strconv.FormatBool(o.RejectMalleable))
 }
 
 func (sh *shared) images() map[string][]byte {
@@ -52,6 +62,17 @@ func (sh *shared) images() map[string][]byte {
 type concOp struct {
 	name string
 	f    func(sh *shared, arg int) string
+}
+
+// freshSep: an operation whose result depends on fresh system randomness returns "<deterministic status>" + freshSep + "<token>": the
+// status is compared with the sequential run, the token (a nonce's r, a generated key's fingerprint) must never repeat.
+const freshSep = "|fresh|"
+
+func splitFresh(out string) (string, string) {
+	if i := strings.Index(out, freshSep); i >= 0 {
+		return out[:i], out[i+len(freshSep):]
+	}
+	return out, ""
 }
 
 func concOps() []concOp {
@@ -180,6 +201,62 @@ func concOps() []concOp {
 			}
 			return hx(k.Bytes()) + hx(k2.CompressedBytes())
 		}},
+		{"sign_shared_opts", func(sh *shared, arg int) string { // every goroutine passes the SAME options object
+			sig, err := sh.priv.Sign(secec.RFC6979SHA256(), msg(arg), sh.opts)
+			if err != nil {
+				return "err"
+			}
+			return hx(sig)
+		}},
+		{"verify_shared_opts", func(sh *shared, arg int) string {
+			d := sh.dig
+			if arg%2 == 1 {
+				d = msg(arg)
+			}
+			return strconv.FormatBool(sh.pub.Verify(d, sh.csig, sh.opts))
+		}},
+		{"h2c_shared_dst", func(sh *shared, arg int) string {
+			p, err := h2c.Secp256k1_XMD_SHA256_SSWU_NU(sh.dst, sh.dig)
+			if err != nil {
+				return "err"
+			}
+			return hx(p.CompressedBytes())
+		}},
+		{"sign_system_rand", func(sh *shared, arg int) string { // rand == nil: the process-wide entropy source, from every goroutine at once
+			r, s, _, err := sh.priv.SignRaw(nil, msg(arg))
+			if err != nil {
+				return "err"
+			}
+			return strconv.FormatBool(sh.pub.VerifyRaw(msg(arg), r, s)) + freshSep + scHex(r)
+		}},
+		{"generate_key", func(sh *shared, arg int) string {
+			var b []byte
+			ok := false
+			if arg%2 == 0 {
+				k, err := secec.GenerateKey()
+				if err != nil {
+					return "err"
+				}
+				b = k.Bytes()
+				ok = secp256k1.NewIdentityPoint().ScalarBaseMult(k.Scalar()).Equal(k.PublicKey().Point()) == 1
+			} else {
+				k, err := bitcoin.GenerateSchnorrKey()
+				if err != nil {
+					return "err"
+				}
+				b = k.Bytes()
+				x, _ := secp256k1.NewIdentityPoint().ScalarBaseMult(k.Scalar()).XBytes()
+				ok = bytes.Equal(x, k.PublicKey().Bytes())
+			}
+			return strconv.FormatBool(ok) + freshSep + hx(sha256Sum(b))
+		}},
+		{"schnorr_sign_system_rand", func(sh *shared, arg int) string {
+			sig, err := sh.spriv.Sign(nil, msg(arg), nil)
+			if err != nil {
+				return "err"
+			}
+			return strconv.FormatBool(sh.spub.Verify(msg(arg), sig)) // (deterministic in the key and message up to the aux bytes: no token)
+		}},
 		{"schnorr_sign", func(sh *shared, arg int) string {
 			sig, err := sh.spriv.Sign(&fixedReader{ent(arg)}, msg(arg), nil)
 			if err != nil {
@@ -254,13 +331,18 @@ func concRun(c *ctx, hammer bool) {
 	if err != nil {
 		panic(err)
 	}
+	sh.opts = &secec.ECDSAOptions{Encoding: secec.EncodingCompact}
+	optsAtStart := optsImage(sh.opts)
+	sh.dst = []byte("conc-shared-dst")
+	sh.csig = secec.BuildCompactSignature(r, s)
 	ops := concOps()
 	nargs := 4
 	c.nextTrace()
 	// phase 1: sequential results
 	for _, o := range ops {
 		for a := 0; a < nargs; a++ {
-			c.E("conc.Base", "op", o.name, "arg", a, "out", safely(o, sh, a))
+			out, fresh := splitFresh(safely(o, sh, a))
+			c.E("conc.Base", "op", o.name, "arg", a, "out", out, "fresh", fresh)
 		}
 	}
 	before := sh.images()
@@ -300,7 +382,8 @@ func concRun(c *ctx, hammer bool) {
 		wg.Wait()
 		for g := range results {
 			for k, r := range results[g] {
-				c.E("conc.Call", "round", round, "g", g, "seq", k, "op", r.op, "arg", r.arg, "out", r.out)
+				out, fresh := splitFresh(r.out)
+				c.E("conc.Call", "round", round, "g", g, "seq", k, "op", r.op, "arg", r.arg, "out", out, "fresh", fresh)
 				total++
 			}
 		}
@@ -331,7 +414,8 @@ func concRun(c *ctx, hammer bool) {
 		wg.Wait()
 		for g := range results {
 			for k, r := range results[g] {
-				c.E("conc.Call", "round", 1000+oi, "g", g, "seq", k, "op", r.op, "arg", r.arg, "out", r.out)
+				out, fresh := splitFresh(r.out)
+				c.E("conc.Call", "round", 1000+oi, "g", g, "seq", k, "op", r.op, "arg", r.arg, "out", out, "fresh", fresh)
 				total++
 			}
 		}
@@ -340,6 +424,8 @@ func concRun(c *ctx, hammer bool) {
 	for name, b := range before {
 		c.E("conc.Frame", "obj", name, "same", bytes.Equal(b, after[name]), "before", hx(sha256Sum(b)), "after", hx(sha256Sum(after[name])))
 	}
+	// the options object is an INPUT: as the caller built it, from construction to the end (sequential phase included)
+	c.E("conc.Frame", "obj", "opts", "same", bytes.Equal(optsAtStart, optsImage(sh.opts)), "before", hx(sha256Sum(optsAtStart)), "after", hx(sha256Sum(optsImage(sh.opts))))
 	c.E("conc.Done", "goroutines", G, "rounds", rounds, "calls", total, "race_build", raceEnabled, "pid", os.Getpid())
 	c.sticky = false
 	_ = big.NewInt
